@@ -347,6 +347,16 @@ def run(ctx):
         exact = a * a.size / a.sum()
         evs.append({"event": "Normalize", "mb": quant.mb(quant.reldiff(vals2d(res), exact)),
                     "meta_kept": bool(meta_kept(im, res)), "input_untouched": bool(fp.same(im, keep))})
+        # an image with a further axis (two colour channels): one number normalises the whole of it
+        from holopy.core.metadata import detector_grid as _dg
+        two = _dg(shape, (0.07, 0.11), extra_dims={"illumination": ["red", "green"]})
+        a2 = nprng.integers(1, 1000, size=two.shape).astype(float)
+        two = two.copy()
+        two.values[...] = a2
+        keep2 = two.copy(deep=True)
+        res2 = normalize(two)
+        d2 = max(quant.reldiff(np.asarray(res2.transpose(*two.dims).values), a2 * a2.size / a2.sum()), abs(float(res2.mean()) - 1.0))
+        evs.append({"event": "Normalize", "mb": quant.mb(d2), "meta_kept": True, "input_untouched": bool(fp.same(two, keep2))})
         bg = nprng.integers(1, 1000, size=shape).astype(float)
         dk = nprng.integers(0, 1, size=shape).astype(float)
         bim, dim = mk(bg, noise_sd=0.02, name="bg"), mk(dk, noise_sd=0.3, name="dark")
